@@ -14,6 +14,7 @@ package main
 import (
 	"bufio"
 	"bytes"
+	"context"
 	"encoding/json"
 	"flag"
 	"fmt"
@@ -146,6 +147,7 @@ type daemon struct {
 	dir      string
 	sock     string
 	httpAddr string
+	httpSock string
 	straceF  string
 	strace   bool
 	exited   chan struct{}
@@ -162,7 +164,13 @@ func startDaemon(bin, dir string, killSpec string, hold []string, strace bool, t
 	atomic.AddInt64(&nStarts, 1)
 	d := &daemon{dir: dir, strace: strace, exited: make(chan struct{}), addrCh: make(chan string, 1)}
 	d.sock = filepath.Join(dir, "verif.sock")
-	args := []string{"-data-path", dir, "-http-address", "127.0.0.1:0", "-tcp-address", "127.0.0.1:0"}
+	// unix sockets inside the scratch data path: no other process can ever answer for this
+	// daemon (an ephemeral TCP port is reused by unrelated daemons as soon as ours is killed)
+	hs, ts := filepath.Join(dir, "h-"+tag+".sock"), filepath.Join(dir, "t-"+tag+".sock")
+	os.Remove(hs)
+	os.Remove(ts)
+	d.httpSock = hs
+	args := []string{"-data-path", dir, "-http-address", hs, "-tcp-address", ts}
 	if strace {
 		d.straceF = filepath.Join(dir, "strace."+tag+".txt")
 		sargs := []string{"-f", "-y", "-o", d.straceF, "-e", "trace=openat,open,creat,write,pwrite64,writev,fsync,fdatasync,close,rename,renameat,renameat2,unlink,unlinkat,truncate,ftruncate", bin}
@@ -210,7 +218,12 @@ func startDaemon(bin, dir string, killSpec string, hold []string, strace bool, t
 		d.werr = d.cmd.Wait()
 		close(d.exited)
 	}()
-	d.client = &http.Client{Timeout: 60 * time.Second, Transport: &http.Transport{DisableKeepAlives: true}}
+	sockPath := d.httpSock
+	d.client = &http.Client{Timeout: 60 * time.Second, Transport: &http.Transport{DisableKeepAlives: true,
+		DialContext: func(ctx context.Context, network, addr string) (net.Conn, error) {
+			var dl net.Dialer
+			return dl.DialContext(ctx, "unix", sockPath)
+		}}}
 	return d, nil
 }
 
@@ -282,7 +295,8 @@ func (d *daemon) killedBySignal() bool {
 func (d *daemon) waitServing() (Doc, bool) {
 	select {
 	case a := <-d.addrCh:
-		d.httpAddr = a
+		_ = a
+		d.httpAddr = "nsqd"
 	case <-d.exited:
 		return nil, false
 	case <-time.After(60 * time.Second):
@@ -908,7 +922,7 @@ func runLock(bin, scratch string, sc Scenario) (lib.Case, error) {
 		return lib.Case{}, fmt.Errorf("lock: first daemon did not start\n%s", a.tail())
 	}
 	// the second daemon on the same data path must exit non-zero by itself
-	b := exec.Command(bin, "-data-path", dir, "-http-address", "127.0.0.1:0", "-tcp-address", "127.0.0.1:0")
+	b := exec.Command(bin, "-data-path", dir, "-http-address", filepath.Join(dir, "h-b.sock"), "-tcp-address", filepath.Join(dir, "t-b.sock"))
 	var berr bytes.Buffer
 	b.Stderr = &berr
 	refused := false
@@ -1350,6 +1364,11 @@ func runMix(bin, scratch string, sc Scenario, o *lib.Out) (lib.Case, bool, error
 	}
 	o.Stat("k8_mixed_document_reproduced", reproduced)
 	o.Stat("k8_attempts", attempts)
+	if file == nil {
+		// inconclusive (the forced schedule did not run as planned): nothing to judge
+		o.Stat("k8_inconclusive", note)
+		return lib.Case{}, false, nil
+	}
 	ps := make([]string, len(passed))
 	for i, p := range passed {
 		ps[i] = coqDoc(p)
